@@ -217,8 +217,14 @@ package gtab
 //@   ensures next >= -1 && next <= len(ctx.seq) && stackinv(ctx) && len(ctx.seq) <= 1099511627776
 //@   ensures next < 0 ==> len(ctx.stack) == old(len(ctx.stack)) && len(ctx.seq) == old(len(ctx.seq))
 //@   ensures next >= 0 ==> old(has(l.Cov, ctx.seq[a].GID)) && next == a + len(l.Repl[l.Cov[old(ctx.seq[a].GID)]]) && len(ctx.seq) == old(len(ctx.seq)) + len(l.Repl[l.Cov[old(ctx.seq[a].GID)]]) - 1
+// GSUB type 2 (multiple substitution): the covered glyph is replaced by the glyphs of its sequence, in order; everything before a is left alone and the tail moves up unchanged
+//@   return_assert next >= 0 ==> forall i8 int :: 0 <= i8 && i8 < len(repl) ==> ctx.seq[a+i8].GID == repl[i8]
+//@   return_assert next >= 0 ==> forall q int :: 0 <= q && q < a ==> ctx.seq[q] == old(ctx.seq[q])
+//@   return_assert next >= 0 ==> forall q int :: a + len(repl) <= q && q < len(ctx.seq) ==> ctx.seq[q] == old(ctx.seq[q - len(repl) + 1])
+//@   ensures next < 0 ==> forall q int :: 0 <= q && q < len(ctx.seq) ==> ctx.seq[q] == old(ctx.seq[q])
 //@   modifies ctx.seq, all(nested), allelems(glyph.Info), allelems(int)
 //@   loop 0
+//@     invariant seq[a].GID == repl[0] && (forall i8 int :: 1 <= i8 && i8 < i ==> seq[a+i8].GID == repl[i8]) && (forall q int :: 0 <= q && q < a ==> seq[q] == old(ctx.seq[q])) && (forall q int :: a + k <= q && q < len(seq) ==> seq[q] == old(ctx.seq[q - k + 1]))
 //@     invariant 1 <= i && i <= k && k == len(repl) && len(seq) == len(ctx.seq) + k - 1 && a + k <= len(seq) && stackinv(ctx) && inside(ctx, b) && len(seq) <= 1099511627776
 //@     decreases k - i
 
